@@ -68,11 +68,12 @@ Proof. unfold track_update. destruct (mstat s); reflexivity. Qed.
 Lemma discrete_select_step i (s : simR) : mstep (discrete_select i s) = mstep s.
 Proof. unfold discrete_select. destruct (paction_eqb _ _); reflexivity. Qed.
 
-Lemma interact_act_step_le i (s : simR) : mstep (interact_act i s) <= mstep s.
+Lemma interact_act_step_le fx i (s : simR) : mstep (interact_act fx i s) <= mstep s.
 Proof.
   unfold interact_act. destruct (paction_eqb _ _); [|lra].
   destruct (interaction_apply _ _ _ _) as [x f]. destruct f.
-  - pose proof (step_limit_only_lowers n0 AFailure s) as Hl.
+  - destruct fx; [cbn; lra|].
+    pose proof (step_limit_only_lowers n0 AFailure s) as Hl.
     destruct (step_limit n0 AFailure s) as [s' l]. cbn. tauto.
   - destruct (iact (in_inter i)); cbn; lra.
 Qed.
@@ -89,16 +90,16 @@ Proof. intros Hs. unfold pre_step. destruct (mstat s); try congruence; cbn; auto
 
 (** every state between pre-step and the end of the iteration has a step
     length <= the physics limit chosen in pre-step *)
-Theorem limit_only_shrinks i (s : simR) :
+Theorem limit_only_shrinks fx i (s : simR) :
   mstat s <> Errored ->
-  Forall (fun x => mstep x <= in_phys_step i) (tl (step_trace i s)).
+  Forall (fun x => mstep x <= in_phys_step i) (tl (step_trace fx i s)).
 Proof.
   intros Hs. destruct (pre_step_limit i s Hs) as [H0 Ha].
   unfold step_trace. cbn [tl]. rewrite Ha.
   set (s0 := pre_step i s) in *.
   set (a1 := propagate_apply i s0). set (a2 := time_update i a1).
   set (a3 := eloss_act i a2). set (a4 := track_update i a3).
-  set (p1 := discrete_select i a4). set (p2 := interact_act i p1).
+  set (p1 := discrete_select i a4). set (p2 := interact_act fx i p1).
   set (p3 := boundary_act i p2). set (p4 := tracking_cut_act p3).
   assert (E1 : mstep a1 <= in_phys_step i) by (subst a1; rewrite <- H0; apply propagate_step_le).
   assert (E2 : mstep a2 = mstep a1) by apply time_update_step.
@@ -135,13 +136,13 @@ Proof. unfold eloss_act, with_slot. cbn [mstat]. apply (eloss_apply_stat _ _ _ (
 Lemma discrete_select_stat i (s : simR) : mstat (discrete_select i s) = mstat s.
 Proof. unfold discrete_select. destruct (paction_eqb _ _); reflexivity. Qed.
 
-Lemma interact_act_stat i (s : simR) :
-  mstat (interact_act i s) = mstat s \/ mstat (interact_act i s) = Killed.
+Lemma interact_act_stat fx i (s : simR) :
+  mstat (interact_act fx i s) = mstat s \/ mstat (interact_act fx i s) = Killed.
 Proof.
   unfold interact_act. destruct (paction_eqb _ _); [|now left].
   pose proof (interaction_apply_stat (in_apply_post i) (in_cut i) (in_inter i) (slot_of s)) as Hs.
   destruct (interaction_apply _ _ _ _) as [x f]. cbn [fst] in Hs. destruct f.
-  - unfold step_limit. destruct (_ <? _)%num; cbn; auto.
+  - destruct fx; [cbn; auto|]. unfold step_limit. destruct (_ <? _)%num; cbn; auto.
   - destruct (iact (in_inter i)); cbn [mstat with_slot]; exact Hs.
 Qed.
 
@@ -162,9 +163,9 @@ Qed.
 
 (** within one iteration the status of an active slot only moves forward:
     initializing -> alive -> (errored ->) killed *)
-Theorem status_monotone i (s : simR) :
+Theorem status_monotone fx i (s : simR) :
   (mstat s = Initializing \/ mstat s = Alive \/ mstat s = Errored) ->
-  mono_chain (step_trace i s).
+  mono_chain (step_trace fx i s).
 Proof.
   intros Hr. unfold step_trace.
   set (s0 := pre_step i s).
@@ -177,7 +178,7 @@ Proof.
   all: try (rewrite ?E0 in *; exact H0).
   all: try match goal with
     | |- (rank (mstat ?a) <= rank (mstat (discrete_select _ ?a)))%nat => rewrite discrete_select_stat; lia
-    | |- (rank (mstat ?a) <= rank (mstat (interact_act _ ?a)))%nat =>
+    | |- (rank (mstat ?a) <= rank (mstat (interact_act _ _ ?a)))%nat =>
         eapply rank_step; [apply interact_act_stat | reflexivity]
     | |- (rank (mstat ?a) <= rank (mstat (boundary_act _ ?a)))%nat =>
         eapply rank_step; [apply boundary_act_stat | reflexivity]
